@@ -267,6 +267,11 @@ pub fn check_pair(rep: &mut Report, orc: &mut Oracle, rng: &mut Rng, a: &StMoc, 
         rep.violation("store space_fold differs from the instants whose space coverage lies inside the S-MOC", &format!("SFOLD(store) {} | S(depth {})={}", a.show(), d, ranges_str(sm)), &go, &format!("depth {} {}", a.dt, e), "C10_sfold");
       }
       let _ = st.drop(is);
+      // ... and through the command line (`moc op sfold`), the third observation point of the property
+      cli_fold(rep, orc, a, "sfold", Q::S, *d, sm);
+    }
+    if !tm.is_empty() {
+      cli_fold(rep, orc, a, "tfold", Q::T, a.dt, &tm);
     }
     if !tm.is_empty() {
       rep.evaluations += 1;
@@ -309,4 +314,49 @@ pub fn run(ctx: &Ctx) -> Report {
   }
   rep.notes.push(format!("oracle calls: {}", orc.calls));
   rep
+}
+
+
+/// `moc op tfold|sfold <selector.fits> <st.fits> ascii <out>` with the real binary, compared with the extracted fold
+fn cli_fold(rep: &mut Report, orc: &mut Oracle, a: &StMoc, name: &str, q: Q, d: u8, sel: &[(u64, u64)]) {
+  let bin = match std::env::var("VERIF_BIN_DIR") {
+    Ok(b) => std::path::PathBuf::from(b).join("moc"),
+    Err(_) => return,
+  };
+  if !bin.exists() {
+    rep.count("folds:cli-not-built");
+    return;
+  }
+  // one call in eight goes through the command line (a process per call)
+  {
+    use std::sync::atomic::{AtomicU64, Ordering};
+    static N: AtomicU64 = AtomicU64::new(0);
+    if N.fetch_add(1, Ordering::Relaxed) % 8 != 0 {
+      return;
+    }
+  }
+  let scratch = std::env::var("VERIF_SCRATCH").unwrap_or_else(|_| std::env::temp_dir().display().to_string());
+  let _ = std::fs::create_dir_all(&scratch);
+  let (ps, pa, out) = (format!("{}/c10_sel.fits", scratch), format!("{}/c10_st.fits", scratch), format!("{}/c10_out.txt", scratch));
+  let _ = std::fs::remove_file(&out);
+  let selm = Moc { q, w: 64, d, r: sel.to_vec() };
+  if std::fs::write(&ps, crate::c19::fits_bytes(&selm, 64, false)).is_err() || std::fs::write(&pa, crate::c19::st_fits(a)).is_err() {
+    return;
+  }
+  rep.evaluations += 1;
+  rep.count(&format!("folds:cli:{}", name));
+  let line = format!("{} {} {}", if name == "tfold" { "TFOLD" } else { "SFOLD" }, a.wire(), ranges_str(sel));
+  let case = format!("{} # moc op {} <selector depth {}> <ST {}> ascii", line, name, d, a.show());
+  let res = std::process::Command::new(&bin).args(["op", name, &ps, &pa, "ascii", &out]).output();
+  let exp = orc.ask(&line);
+  match res {
+    Ok(o) => {
+      let qo = if name == "tfold" { Q::S } else { Q::T };
+      let got = crate::c19::decode_out(qo, "ascii", std::path::Path::new(&out)).map(|(_, _, r)| format!("OK {}", ranges_str(&r)));
+      if !o.status.success() || got.as_deref() != Ok(exp.as_str()) {
+        rep.violation(&format!("`moc op {}` does not return the fold of the ST-MOC", name), &case, &format!("exit {:?} {:?} {}", o.status.code(), got, String::from_utf8_lossy(&o.stderr).chars().take(200).collect::<String>()), &exp, "C10_tfold / C10_sfold");
+      }
+    }
+    Err(e) => rep.notes.push(format!("moc could not be run: {}", e)),
+  }
 }
